@@ -53,8 +53,9 @@ PROPS = {
     "C16": {
         "engines": [{"name": "incoming", "n": {"quick": 3000, "thorough": 40000}, "profiles": ["debug"]},
                     {"name": "stream", "n": {"quick": 1000, "thorough": 20000}, "profiles": ["debug"], "oracle": "oracle", "shard": 100},
-                    {"name": "conn", "n": {"quick": 600, "thorough": 15000}, "profiles": ["debug"], "oracle": "oracle_C16", "shard": 40, "count": ["has_bad_and_good"]}],
-        "rule": "engine conn: ONE real ConnHandler (lib.rs SelectAll<IncomingStream>, real FramedRead + Codec + process_message) with 1-4 scripted inbound streams opened at different times, each carrying 1-4 frames cut at arbitrary points with "
+                    {"name": "conn", "n": {"quick": 600, "thorough": 15000}, "profiles": ["debug"], "oracle": "oracle_C16", "shard": 40, "count": ["has_bad_and_good"]},
+                    {"name": "connhandler", "n": {"quick": 400, "thorough": 15000}, "profiles": ["debug"], "oracle": "oracle_C16", "shard": 100}],
+        "rule": "engine connhandler: see C14. engine conn: ONE real ConnHandler (lib.rs SelectAll<IncomingStream>, real FramedRead + Codec + process_message) with 1-4 scripted inbound streams opened at different times, each carrying 1-4 frames cut at arbitrary points with "
                 "Pending / EOF / read errors, some frames bad (oversize announcement, bad varint, protobuf error, invalid presence CID, unparsable block prefix, truncated tail); every IncomingMessage event is attributed to its "
                 "stream; per stream the events must equal Streams.stream_out of that stream's own read events (what precedes a bad frame is delivered, nothing after it, other streams complete), and the streams alive at the end are "
                 "those the model leaves pending. Non-trivial = at least two streams. engine incoming: process_message on generated Message values (honest blocks, wrong data, unknown / scripted / oversize hash codes, "
@@ -69,9 +70,10 @@ PROPS = {
         "engines": [{"name": "codec", "n": {"quick": 1200, "thorough": 20000}, "profiles": ["debug", "release"], "oracle": "oracle_C09",
                      "known": {}, "count": []},
                     {"name": "srvsplit", "n": {"quick": 60, "thorough": 3000}, "profiles": ["debug"], "oracle": "oracle_C09"},
-                    {"name": "srvhandler", "n": {"quick": 400, "thorough": 15000}, "profiles": ["debug"], "oracle": "oracle_C09", "shard": 60}],
+                    {"name": "srvhandler", "n": {"quick": 400, "thorough": 15000}, "profiles": ["debug"], "oracle": "oracle_C09", "shard": 60},
+                    {"name": "connhandler", "n": {"quick": 400, "thorough": 15000}, "profiles": ["debug"], "oracle": "oracle_C09", "shard": 100}],
         "tie_lemmas": ["tie_max_message_size", "tie_limit_operand", "tie_limit_operator", "tie_varint_error_mapping", "tie_split_addend", "tie_split_operator", "tie_split_limit", "tie_split_early_return", "tie_split_shape"],
-        "rule": "engine codec (debug = overflow-checked and release profile; in release every decode runs in a confined child process): "
+        "rule": "engine connhandler: see C14. engine codec (debug = overflow-checked and release profile; in release every decode runs in a confined child process): "
                 "length prefixes of every varint byte length 1..11 (values around every power of two, around the 4 MiB limit, overlong / overflowing / "
                 "non-minimal encodings) followed by 0, 1, 3 and 40 payload bytes; all frames of <= 3 (quick) / 4 (thorough) bytes over a 14-byte boundary alphabet; "
                 "encode/decode of generated message values; every proper prefix of small frames; the harness's own non-canonical encodings; mutated frames. "
@@ -175,8 +177,9 @@ PROPS = {
                     {"name": "client", "n": {"quick": 300, "thorough": 5000}, "profiles": ["debug", "release"], "oracle": "oracle_C03", "shard": 15},
                     {"name": "server", "n": {"quick": 60, "thorough": 800}, "profiles": ["debug", "release"], "oracle": "oracle_C07", "shard": 20},
                     {"name": "handler", "n": {"quick": 400, "thorough": 10000}, "profiles": ["debug"], "oracle": "oracle_C14", "shard": 50},
-                    {"name": "node", "n": {"quick": 300, "thorough": 4000}, "profiles": ["debug", "release"], "oracle": "oracle_C08", "shard": 25}],
-        "rule": "engines codec (mutated / structured / exhaustive short frames, prefixes of every varint length, non-canonical encodings), prefix (all strings of <= 4/5 "
+                    {"name": "node", "n": {"quick": 300, "thorough": 4000}, "profiles": ["debug", "release"], "oracle": "oracle_C08", "shard": 25},
+                    {"name": "connhandler", "n": {"quick": 300, "thorough": 8000}, "profiles": ["debug", "release"], "oracle": "oracle", "shard": 100}],
+        "rule": "engine connhandler: see C14 (no panic of the whole handler). engines codec (mutated / structured / exhaustive short frames, prefixes of every varint length, non-canonical encodings), prefix (all strings of <= 4/5 "
                 "bytes over a 10-byte boundary alphabet, structured prefixes), incoming (adversarial message values), client and server (behaviours under arbitrary "
                 "op sequences), handler (client handler under arbitrary scripted I/O) — in the overflow-checked (debug) AND the release profile; in release every decode of a "
                 "generated frame runs in a confined child process (address-space limit, per-input timeout) so that a hang or an allocation blow-up is an observed outcome. "
@@ -188,9 +191,10 @@ PROPS = {
     },
     "C05": {
         "engines": [{"name": "client", "n": {"quick": 600, "thorough": 12000}, "profiles": ["debug"], "oracle": "oracle_C05", "shard": 15},
-                    {"name": "handler", "n": {"quick": 1500, "thorough": 30000}, "profiles": ["debug"], "oracle": "oracle_C05", "shard": 60, "count": ["is_disciplined"]}],
+                    {"name": "handler", "n": {"quick": 1500, "thorough": 30000}, "profiles": ["debug"], "oracle": "oracle_C05", "shard": 60, "count": ["is_disciplined"]},
+                    {"name": "connhandler", "n": {"quick": 400, "thorough": 15000}, "profiles": ["debug"], "oracle": "oracle_C05", "shard": 100}],
         "tie_lemmas": ["tie_send_full_interval", "tie_receive_request_timeout", "tie_start_sending_timeout", "tie_peer_initial_send_full", "tie_uh_gate", "tie_uh_after", "tie_refresh_timer"],
-        "rule": "engine client: see C03 (faults: Failed reports from the sending connection, reports withheld past 1 s of virtual time, connections closed in every sending state, reports from other "
+        "rule": "engine connhandler: see C14. engine client: see C03 (faults: Failed reports from the sending connection, reports withheld past 1 s of virtual time, connections closed in every sending state, reports from other "
                 "connections; oracle: first wantlist of a session is full, the first wantlist after a fault is full and avoids the faulty connection). engine handler: the client half of the real ConnHandler "
                 "driven through the ConnectionHandler trait over a scripted substream (every poll_write / poll_flush / poll_close outcome: accept n bytes, zero, error, pending), substream allocation failures, "
                 "virtual-clock advances around the 5 s start timeout, poll_close at every step; 3/4 of the histories respect the behaviour's and libp2p-swarm's side of the contract, 1/4 do not (correspondence only). "
@@ -202,9 +206,10 @@ PROPS = {
     "C14": {
         "engines": [{"name": "handler", "n": {"quick": 1500, "thorough": 30000}, "profiles": ["debug"], "oracle": "oracle_C14", "shard": 60, "count": ["is_disciplined"]},
                     {"name": "client", "n": {"quick": 500, "thorough": 12000}, "profiles": ["debug"], "oracle": "oracle_C14", "shard": 15},
-                    {"name": "net", "n": {"quick": 2500, "thorough": 30000}, "profiles": ["debug"], "oracle": "oracle_C14", "shard": 200, "distinct_io": True}],
+                    {"name": "net", "n": {"quick": 2500, "thorough": 30000}, "profiles": ["debug"], "oracle": "oracle_C14", "shard": 200, "distinct_io": True},
+                    {"name": "connhandler", "n": {"quick": 600, "thorough": 20000}, "profiles": ["debug"], "oracle": "oracle_C14", "shard": 100}],
         "tie_lemmas": ["tie_uh_gate", "tie_uh_after", "tie_refresh_timer"],
-        "rule": "engine handler: see C05 (oracle: the bytes accepted by each stream are a prefix of the frame of exactly one accepted wantlist, a stream never carries more than one frame, Ready is reported iff some stream "
+        "rule": "engine connhandler: the WHOLE real ConnHandler of lib.rs (client half + server half + SelectAll of inbound streams under the priority order of poll, event routing of on_behaviour_event / on_connection_event incl. the ignored server DialUpgradeError) over scripted streams for both halves and scripted inbound streams, against ConnHandler.v = the composition of Handler.v, ServerHandler.v and Streams.v; events in the order returned, both handler snapshots, live inbound streams and keep-alive after every op. engine handler: see C05 (oracle: the bytes accepted by each stream are a prefix of the frame of exactly one accepted wantlist, a stream never carries more than one frame, Ready is reported iff some stream "
                 "was written the complete frame). engine client: see C03 (oracle: no SendWantlist for a peer while one is outstanding). engine net: 2-4 complete nodes (real Behaviour + real ConnHandlers + real codec) wired by the "
                 "harness's mini swarm over in-memory pipes with arbitrary read chunking, schedules and blockstore latencies; histories of connect / disconnect / get / cancel / local put / evict; after settle + two refresh periods the "
                 "serving side's record of a requester's wants must equal the requester's live wants for every connected pair.",
